@@ -30,7 +30,10 @@ QUICK_BUDGET_S = 80
 THOROUGH_BUDGET_S = 900
 RULE = ("documents: 0-12 hit objects over lanes 1-10 with StartTime/KeySounds/Lane omitted at random, holds via EndTime, "
         "0-6 timing points / scroll velocities with omitted StartTime/Bpm/Multiplier, empty sections, hits only, holds only, "
-        "a random subset of the 21 metadata keys with strings that need YAML quoting, block and flow style; charts: built "
+        "a random subset of the 21 metadata keys with strings that need YAML quoting, strings and tag lists long enough to be folded "
+        "by PyYAML (> 80 characters), block and flow style, hand-written documents with plain multi-line / folded `>` / literal `|` / "
+        "quoted multi-line scalars; read through read(text), read(list of lines), read_file (LF and CRLF files) and written through "
+        "write() or write_file - every entry point must agree with read(<the file's text>); charts: built "
         "natively, with from_dict, or converted (OsuToQua, SMToQua, BMSToQua, O2JToQua) from source charts that first went through "
         "0-3 ordinary operations (after/before/between, boolean mask, reverse sort, sort, append, stack edit, rate - they leave "
         "non-default row labels), offsets from integers, dyadic rationals, "
@@ -434,6 +437,8 @@ def build_chart(case):
 def render(case):
     """case['doc'] (a JSON-able mapping) -> .qua text"""
     import yaml
+    if "text" in case:
+        return case["text"]
     style = case.get("style", "block")
     return yaml.safe_dump(case["doc"], sort_keys=case.get("sort_keys", False), allow_unicode=True,
                           default_flow_style=(None if style == "mixed" else (True if style == "flow" else False)),
@@ -473,11 +478,27 @@ def gen_ks(rng, allow_nan=False):
     return [[rng.randint(1, 9), rng.choice([0, 50, 100])] for _ in range(rng.choice([1, 1, 2, 3]))]
 
 
+WORDS = ["carry", "me", "away", "extended", "mix", "feat.", "lapix", "Evening's", "flip", "日本語", "ünï", "a:b", "#7", "-", "&", "x" * 17,
+         "1e3", "yes", "'q'", "(remix)", "v2", "%", "ok,", "[7K]", "{x}", "|", ">", "tab", "!", "@home", "*", "~", "null", "0x1F"]
+
+
+def long_string(rng):
+    """a string PyYAML has to fold (> 80 characters, with blanks)"""
+    n = rng.choice([90, 120, 200, 400])
+    out = []
+    while sum(len(w) + 1 for w in out) < n:
+        out.append(rng.choice(WORDS))
+    t = " ".join(out)
+    return rng.choice([t, t, "# " + t, t + ": end", "- " + t, "  " + t, t + "  ", t.replace(" ", "  ", 3)])
+
+
 def gen_meta_value(rng, key):
     kind = META_KIND[key]
     if kind == "str":
         if key == "Mode":
             return rng.choice(["Keys4", "Keys7", "Keys8", "Keys4"])
+        if rng.random() < 0.2:
+            return long_string(rng)
         return rng.choice(STRINGS)
     if kind == "int":
         return rng.choice([0, -1, 1, 169955, rng.randint(-10, 10 ** 6)])
@@ -497,7 +518,7 @@ def gen_doc(rng):
     chosen = keys if r < 0.3 else ([] if r < 0.4 else [k for k in keys if rng.random() < 0.5 or (k == "InitialScrollVelocity" and rng.random() < 0.7)])
     for k in chosen:
         if k == "Tags":
-            words = [rng.choice(TAG_WORDS) for _ in range(rng.choice([0, 1, 2, 4]))]
+            words = [rng.choice(TAG_WORDS) for _ in range(rng.choice([0, 1, 2, 4, 30, 60]))]
             doc[k] = rng.choice([" ", "  ", " "]).join(words) if rng.random() < 0.7 else " " + " ".join(words) + "  "
         else:
             doc[k] = gen_meta_value(rng, k)
@@ -591,7 +612,7 @@ def gen_chart(rng, build):
             if rng.random() < 0.8:
                 r = rng.random()
                 if r < 0.85:
-                    meta[k] = [rng.choice(TAG_WORDS) for _ in range(rng.choice([0, 1, 2, 4]))]
+                    meta[k] = [rng.choice(TAG_WORDS + ["longertag", "another-tag"]) for _ in range(rng.choice([0, 1, 2, 4, 30, 60]))]
                 else:
                     meta[k] = [rng.choice(TAG_WORDS + ["two words", "", " "]) for _ in range(rng.choice([1, 2, 3]))]
         elif k == "InitialScrollVelocity":
@@ -602,17 +623,76 @@ def gen_chart(rng, build):
     return dict(meta=meta, hits=hits, holds=holds, bpms=bpms, svs=svs), ints, keys
 
 
+PLAIN_WORDS = ["carry", "me", "away", "extended", "mix", "lapix", "flip", "remix", "v2", "seven", "keys", "日本語", "ünï"]
+
+
+def gen_raw_text(rng):
+    """a hand-written document: metadata scalars that span several lines (plain, folded `>`, literal `|`, quoted),
+    the three sections dumped by PyYAML"""
+    import yaml
+    doc = gen_doc(rng)
+    lines = []
+    for k, _ in KEY_ATTR:
+        kind = META_KIND[k]
+        if kind not in ("str", "tags") or k == "Mode" or rng.random() < 0.5:
+            continue
+        words = [rng.choice(PLAIN_WORDS) for _ in range(rng.choice([3, 6, 12, 25]))]
+        cut = sorted(rng.sample(range(1, len(words)), min(len(words) - 1, rng.choice([1, 2, 3]))))
+        chunks = [" ".join(words[a:b]) for a, b in zip([0] + cut, cut + [len(words)])]
+        style = rng.choice(["plain", "folded", "folded-strip", "literal", "literal-strip", "dq", "sq", "folded-para"])
+        if kind == "tags":
+            style = rng.choice(["plain", "folded-strip", "dq", "sq"])
+        if style == "plain":
+            lines.append(f"{k}: " + chunks[0])
+            lines.extend("  " + c for c in chunks[1:])
+        elif style in ("folded", "folded-strip", "folded-para"):
+            lines.append(f"{k}: " + (">-" if style == "folded-strip" else ">"))
+            for j, c in enumerate(chunks):
+                lines.append("  " + c)
+                if style == "folded-para" and j == 0 and len(chunks) > 1:
+                    lines.append("")
+        elif style in ("literal", "literal-strip"):
+            lines.append(f"{k}: " + ("|-" if style == "literal-strip" else "|"))
+            lines.extend("  " + c for c in chunks)
+        elif style == "dq":
+            lines.append(f'{k}: "' + chunks[0])
+            lines.extend("  " + c for c in chunks[1:])
+            lines[-1] += '"'
+        else:
+            lines.append(f"{k}: '" + chunks[0])
+            lines.extend("  " + c for c in chunks[1:])
+            lines[-1] += "'"
+    if rng.random() < 0.7:
+        lines.append("InitialScrollVelocity: 1.0")
+    if rng.random() < 0.5:
+        lines.append("Mode: Keys7")
+    secs = {s_: doc[s_] for s_ in SECTIONS}
+    body = yaml.safe_dump(secs, sort_keys=False, allow_unicode=True, default_flow_style=False)
+    text = "\n".join(lines) + ("\n" if lines else "") + body
+    if rng.random() < 0.3:
+        text = body + "\n".join(lines) + ("\n" if lines else "")
+    return text
+
+
+def gen_via(rng):
+    return rng.choice(["text", "text", "file", "file", "file", "file_crlf", "lines"])
+
+
 def gen(rng, tier, i):
     r = rng.random()
     if r < 0.34:
+        if rng.random() < 0.25:
+            return dict(claim="read", text=gen_raw_text(rng), via=gen_via(rng))
         return dict(claim="read", doc=gen_doc(rng), style=rng.choice(["block", "block", "mixed", "flow"]),
-                    sort_keys=rng.random() < 0.3)
+                    sort_keys=rng.random() < 0.3, via=gen_via(rng))
     if r < 0.46:
-        return dict(claim="wr", doc=gen_doc(rng), style=rng.choice(["block", "mixed"]), sort_keys=False)
+        if rng.random() < 0.25:
+            return dict(claim="wr", text=gen_raw_text(rng), via=gen_via(rng))
+        return dict(claim="wr", doc=gen_doc(rng), style=rng.choice(["block", "mixed"]), sort_keys=False, via=gen_via(rng))
     build = rng.choice(["native", "native", "native", "from_dict", "osu", "osu", "sm", "sm", "bms", "o2j"])
     ch, ints, keys = gen_chart(rng, build)
     claim = "write" if r < 0.8 else "rw"
-    case = dict(claim=claim, build=build, ints=ints, keys=keys, chart=ch)
+    case = dict(claim=claim, build=build, ints=ints, keys=keys, chart=ch, via=gen_via(rng))
     if build in CONVERTED and rng.random() < 0.7:
         case["history"] = gen_history(rng, ch)
     return case
@@ -673,6 +753,22 @@ def corpus():
         c.append(dict(claim="write", build=b, ints=False, keys=4, chart=src, history=[["after", R(150), False]]))
     c.append(dict(claim="rw", build="osu", ints=True, keys=4, chart=src, history=[["mask", [False, True]], ["reverse"]]))
     c.append(dict(claim="rw", build="sm", ints=True, keys=4, chart=src, history=[["between", R(150), R(400)], ["stack_shift", R(250)]]))
+    # seeded C06-E: the FILE entry points, with scalars that span several lines (folded by the dumper or hand-written)
+    long_title = "Carry Me Away (Extended Mix) feat. somebody with a very long name, remixed and extended once more for 7K"
+    tags30 = ["tag%d" % i for i in range(30)]
+    hand = ("Title: carry me away\n  extended mix\nArtist: >\n  lapix and\n  friends\nDescription: |\n  line one\n  line two\n"
+            "Source: \"double quoted\n  continued\"\nTags: a b c\n  d e\nInitialScrollVelocity: 1.0\n"
+            "HitObjects:\n- StartTime: 100\n  Lane: 2\n  KeySounds: []\nTimingPoints:\n- StartTime: 0\n  Bpm: 120.0\nSliderVelocities: []\n")
+    for via in ("file", "file_crlf", "lines"):
+        c.append(dict(claim="read", text=hand, via=via))
+        c.append(dict(claim="wr", via=via, doc=_doc(ho=[dict(StartTime=1, Lane=1, KeySounds=ks0)], Title=long_title, Tags=" ".join(tags30),
+                                                    Description=long_title + ": " + long_title, InitialScrollVelocity=1.0)))
+        c.append(dict(claim="rw", build="native", ints=True, keys=4, via=via,
+                      chart=dict(meta=dict(Title=long_title, Artist="# " + long_title, Tags=tags30, InitialScrollVelocity=R(1.0)),
+                                 hits=[[R(1), 0, []]], holds=[], bpms=[], svs=[])))
+    c.append(dict(claim="rw", build="osu", ints=True, keys=4, via="file",
+                  chart=dict(meta=dict(Title=long_title, Tags=tags30, InitialScrollVelocity=R(1.0)),
+                             hits=[[R(1), 0, None]], holds=[], bpms=[[R(0), R(120), R(4)]], svs=[])))
     # D29 (fixed): default-constructed metadata used to be written with InitialScrollVelocity: ''
     c.append(dict(claim="write", build="native", ints=False, keys=4,
                   chart=dict(meta={}, hits=[[R(1), 0, []]], holds=[], bpms=[], svs=[]), _expect="D29"))
@@ -710,8 +806,18 @@ def corpus():
 def valid(case):
     try:
         cl = case["claim"]
+        if case.get("via", "text") not in VIAS:
+            return False
         if cl in ("read", "wr"):
-            d = case["doc"]
+            if "text" in case:
+                if not isinstance(case["text"], str):
+                    return False
+                try:
+                    d = parse(case["text"])
+                except Exception:
+                    return False
+            else:
+                d = case["doc"]
             if not isinstance(d, dict):
                 return False
             for s in SECTIONS:
@@ -893,6 +999,16 @@ def run(case, drv):
     return dict(read=run_read, write=run_write, rw=run_rw, wr=run_wr)[case["claim"]](case, drv)
 
 
+def _text_tags(text):
+    """does the text hold a scalar that spans several lines (folded by the dumper, or a hand-written block)?"""
+    for line in text.split("\n"):
+        st = line.lstrip()
+        if line[:1] in (" ", "\t") and st and not st.startswith("- ") and not st.startswith("-") and ": " not in st \
+                and not st.endswith(":") and not st.startswith("{") and not st.startswith("["):
+            return ["folded-scalar"]
+    return []
+
+
 def _doc_tags(doc, text_doc):
     tags = []
     ho = text_doc.get("HitObjects") or []
@@ -915,13 +1031,14 @@ def _doc_tags(doc, text_doc):
     return tags
 
 
-def _read_impl(text):
+def _read_impl(arg, file=False):
+    """QuaMap.read(text | list of lines) or, with file=True, QuaMap.read_file(path)"""
     QuaMap = _imports()[0]
     import warnings
     with warnings.catch_warnings():
         warnings.simplefilter("ignore")
         try:
-            m = QuaMap.read(text)
+            m = QuaMap.read_file(arg) if file else QuaMap.read(arg)
         except Exception as e:
             return ("err", err_class(e), None)
         try:
@@ -929,6 +1046,41 @@ def _read_impl(text):
         except Unobservable as e:
             return ("unobs", str(e), m)
         return ("ok", ch, extras, m)
+
+
+VIAS = ("text", "file", "file_crlf", "lines")
+
+
+def read_via(text, via):
+    """the implementation's reading of `text` through one of its entry points.
+    -> (impl result, the exact text PyYAML is to parse for the model, problems): every entry point must read what
+    `QuaMap.read(<the file's text>)` reads"""
+    import os
+    import tempfile
+    if via == "text":
+        return _read_impl(text), text, []
+    if via == "lines":
+        impl, exact = _read_impl(text.split("\n")), text
+        ref = _read_impl(text)
+    else:
+        exact = text.replace("\n", "\r\n") if via == "file_crlf" else text
+        with tempfile.TemporaryDirectory(prefix="c06-") as d:
+            path = os.path.join(d, "map.qua")
+            with open(path, "wb") as f:
+                f.write(exact.encode("utf-8"))
+            impl = _read_impl(path, file=True)
+            with open(path, "r", encoding="utf-8") as f:
+                ref = _read_impl(f.read())
+    problems = []
+    if impl[0] != ref[0]:
+        problems.append(f"{via}-entry-point:{impl[0]}-but-read(text):{ref[0]}")
+    elif impl[0] == "ok":
+        p = charts_equal(impl[1], ref[1])
+        if p:
+            problems.append(f"{via}-entry-point-differs-from-read(text):" + ",".join(p[:4]))
+    elif impl[0] == "err" and impl[1] != ref[1]:
+        problems.append(f"{via}-entry-point-raises:{impl[1]}-but-read(text):{ref[1]}")
+    return impl, exact, problems
 
 
 def omitted_pattern(pdoc):
@@ -958,12 +1110,13 @@ def only_omitted_ks_nan(pdoc, impl_ch, spec_ch):
 
 def run_read(case, drv):
     text = render(case)
-    pdoc = parse(text)
+    via = case.get("via", "text")
+    impl, exact, via_problems = read_via(text, via)
+    pdoc = parse(exact)
     wire = doc_wire(pdoc)
-    tags = [case.get("style", "block")] + _doc_tags(case["doc"], pdoc)
-    if pdoc != case["doc"]:
+    tags = [case.get("style", "block") if "text" not in case else "hand-written", "via-" + via] + _doc_tags(pdoc, pdoc) + _text_tags(text)
+    if "doc" in case and pdoc != case["doc"]:
         tags.append("yaml-normalised")
-    impl = _read_impl(text)
     model = drv.call("c06.read", doc=wire)
     spec = drv.call("c06.denote", doc=wire)
     domf = drv.call("c06.dom_doc", doc=wire)["ok"]
@@ -996,18 +1149,33 @@ def run_read(case, drv):
             if p:
                 ok = False
                 detail["spec_diff"] = p[:8]
+    if via_problems:
+        ok = False
+        detail["entry_point"] = via_problems
     if not (ok and agree):
         detail.update(text=text, impl=impl[:2], model=model, spec=spec)
-    nontrivial = bool(pdoc.get("HitObjects") or pdoc.get("TimingPoints")) and len(tags) > 2
+    nontrivial = bool(pdoc.get("HitObjects") or pdoc.get("TimingPoints") or "folded-scalar" in tags) and len(tags) > 3
     return dict(claim="read", ok=ok, agree=agree, dom=dom, kf=kf, tags=tags, nontrivial=nontrivial, maxdev=maxdev, detail=detail)
 
 
-def _write_impl(m):
+def _write_impl(m, via="text"):
+    """QuaMap.write(), or QuaMap.write_file(path) + the file's text (which must be what write() returns)"""
+    import os
+    import tempfile
     import warnings
     with warnings.catch_warnings():
         warnings.simplefilter("ignore")
         try:
-            text = m.write()
+            if via in ("file", "file_crlf"):
+                with tempfile.TemporaryDirectory(prefix="c06-") as d:
+                    path = os.path.join(d, "map.qua")
+                    m.write_file(path)
+                    with open(path, "rb") as f:
+                        text = f.read().decode("utf-8").replace("\r\n", "\n")
+                if text != m.write():
+                    return ("unparsable", "write_file-text-differs-from-write()", text)
+            else:
+                text = m.write()
         except Exception as e:
             return ("err", err_class(e), None)
     try:
@@ -1097,7 +1265,9 @@ def run_write(case, drv, then_read=False):
     domc = drv.call("c06.dom_chart", chart=ch)["ok"]
     dom = domc["ks_lists"] and domc["meta_typed"] and domc["tags_ok"] and domc["meta_keys_ok"] and not extras
     boundary = chart_has_boundary(ch)
-    impl = _write_impl(m)
+    via = case.get("via", "text")
+    tags.append("via-" + via)
+    impl = _write_impl(m, via)
     model = drv.call("c06.write", chart=ch)
     ok, agree, maxdev, detail = True, True, 0.0, {}
     problems, findings = [], set()
@@ -1136,8 +1306,10 @@ def run_write(case, drv, then_read=False):
                 agree = False
                 detail["model_diff"] = p[:8]
         judge_written(drv, wire, ch, domc, problems, findings)
+        tags.extend(_text_tags(impl[2]))
         if then_read:
-            back = _read_impl(impl[2])
+            back, _exact, via_problems = read_via(impl[2], via)
+            problems.extend(via_problems)
             mback = drv.call("c06.write_read", chart=ch)
             if back[0] == "ok":
                 bch, bex = back[1], back[2]
@@ -1176,26 +1348,27 @@ def run_rw(case, drv):
 
 def run_wr(case, drv):
     text = render(case)
-    pdoc = parse(text)
+    via = case.get("via", "text")
+    impl, exact, via_problems = read_via(text, via)
+    pdoc = parse(exact)
     wire = doc_wire(pdoc)
-    tags = [case.get("style", "block")] + _doc_tags(case["doc"], pdoc)
+    tags = [case.get("style", "block") if "text" not in case else "hand-written", "via-" + via] + _doc_tags(pdoc, pdoc) + _text_tags(text)
     domf = drv.call("c06.dom_doc", doc=wire)["ok"]
     spec = drv.call("c06.denote", doc=wire)
     dom = domf["objs_declared"] and "ok" in spec
-    impl = _read_impl(text)
     mread = drv.call("c06.read", doc=wire)
     ok, agree, detail = True, True, {}
-    problems, findings = [], set()
+    problems, findings = list(via_problems), set()
     if impl[0] != "ok":
         # reading is judged by the `read` claim; here only the correspondence
         agree = impl[0] == "err" and mread.get("err") == impl[1]
-        ok = "ok" not in spec
+        ok = "ok" not in spec and not via_problems
         return dict(claim="wr", ok=ok, agree=agree, dom=dom, kf=None, tags=tags + ["impl-raises"], nontrivial=False,
-                    detail={} if (ok and agree) else dict(text=text, impl=impl[:2], model=mread, spec=spec))
+                    detail={} if (ok and agree) else dict(text=text, impl=impl[:2], model=mread, spec=spec, entry_point=via_problems))
     _, ch, extras, m = impl
     if extras:
         problems.append("extra-columns:" + ",".join(extras))
-    w = _write_impl(m)
+    w = _write_impl(m, via)
     mw = drv.call("c06.write", chart=ch)
     boundary = chart_has_boundary(ch)
     if w[0] != "ok":
@@ -1218,5 +1391,5 @@ def run_wr(case, drv):
     kf = _kf_of(problems, findings)
     if not (ok and agree):
         detail.update(problems=problems, findings=sorted(findings), text=text, chart=ch, written=(w[2] if len(w) > 2 else w[:2]), model=mw)
-    nontrivial = bool(pdoc.get("HitObjects") or pdoc.get("TimingPoints")) and len(tags) > 2
+    nontrivial = bool(pdoc.get("HitObjects") or pdoc.get("TimingPoints") or "folded-scalar" in tags) and len(tags) > 3
     return dict(claim="wr", ok=ok, agree=agree, dom=dom, kf=kf, tags=tags, nontrivial=nontrivial, boundary=boundary, detail=detail)
